@@ -170,6 +170,54 @@ def coincidence(rng, st, coin, xopt, g, H, sl, su, delta):
         s = -g.copy()
         s[fixed] = 0.0
         delta = float(np.linalg.norm(t * s)) * float(rng.uniform(1.2, 3.0))
+    elif coin == "bound_at_delta":
+        # zero Hessian, every other bound out of reach: the step is delta * s/|s|; the bound of coordinate i0 lies exactly at that step's i0-th component.
+        # Data with few decimal digits (whether the product rounds outside depends on them)
+        i0 = int(rng.choice(mov))
+        H = np.zeros_like(H)
+        delta = round(float(rng.uniform(0.1, 9.9)), 2)
+        for i in range(n):
+            if g[i] != 0.0:
+                g[i] = math.copysign(round(float(rng.uniform(0.1, 5.0)), 2), g[i])
+        s = -g.copy()
+        s[fixed] = 0.0
+        if rng.random() < 0.7:
+            sl, su, xopt = sl - xopt, su - xopt, np.zeros(n)      # (the box moves with the point: at / near classes keep their meaning)
+        for i in range(n):
+            if st["pos"][i] in ("in", "free"):
+                sl[i], su[i] = xopt[i] - 100.0 * delta, xopt[i] + 100.0 * delta
+            elif st["pos"][i] in ("atL", "nearL"):
+                su[i] = xopt[i] + 100.0 * delta
+            elif st["pos"][i] in ("atU", "nearU"):
+                sl[i] = xopt[i] - 100.0 * delta
+        comp = delta * abs(s[i0]) / float(np.linalg.norm(s))
+        if s[i0] > 0:
+            su[i0] = xopt[i0] + comp
+        else:
+            sl[i0] = xopt[i0] - comp
+        return xopt, g, H, sl, su, delta
+    elif coin == "bound_then_arc":
+        # the first steepest-descent step meets the bound of i0 at about a third of the way to the sphere; strongly coupled curvature of the size of
+        # |g|/delta (indefinite or rank deficient, so that the remaining variables run on to the sphere)
+        i0 = int(rng.choice(mov))
+        s = -g.copy()
+        s[fixed] = 0.0
+        room = delta * float(rng.uniform(0.15, 0.5)) * abs(s[i0]) / float(np.linalg.norm(s))
+        if g[i0] < 0:
+            su[i0] = xopt[i0] + room
+        else:
+            sl[i0] = xopt[i0] - room
+        for i in range(n):
+            if i != i0 and st["pos"][i] == "in":
+                sl[i], su[i] = min(sl[i], xopt[i] - 3.0 * delta), max(su[i], xopt[i] + 3.0 * delta)
+        nh = float(np.linalg.norm(H, 2))
+        if nh > 0:
+            H = H * (float(rng.uniform(1.0, 8.0)) * float(np.linalg.norm(g)) / delta / nh)
+        t = room / abs(s[i0])
+        shs = float(s @ (H @ s))
+        if shs > 0.0 and float(s @ s) / shs < 1.25 * t:
+            H = H * (float(s @ s) / shs) / (2.0 * t)        # the bound, not the 1-d minimiser, ends the first step
+        return xopt, g, H, sl, su, delta
     else:  # bound_on_sphere
         i0 = int(rng.choice(mov))
         if rng.random() < 0.5 and n >= 2:
